@@ -213,6 +213,12 @@ func init() {
 				rawSide = p["raw"][0]
 			}
 			m := newMuxPairRaw(x, rawSide)
+			if p["probe"] == "1" && m.raw != nil {
+				// the hand-written peer once opens a stream and closes it again without writing an id (an abandoned dial, a probe)
+				if st, err := m.raw.sess.Open(); err == nil {
+					st.Close()
+				}
+			}
 			x.Release()
 			x.OnCleanup(func() { m.hs.Close(); m.ps.Close() })
 			d := newDone(x)
